@@ -645,7 +645,10 @@ def agree(c, io, mo, ctx):
                 return "form %d (%s): eval(repr): impl=%r model=%r" % (i, show_form(c["forms"][i]), ab, bb)
             if "err" in ab:
                 continue  # which exception a broken literal raises is not modelled
-            why = _obj_agree(ab["ok"], bb["ok"], None)
+            # the printed value is the float of the object: where that float came out of float arithmetic
+            # (res[i] carries M) it is compared with the exact model value within the bound, else exactly
+            rm = mo["res"][i]
+            why = _obj_agree(ab["ok"], bb["ok"], qparse(rm["M"]) if "M" in rm else None)
             if why:
                 return "form %d: eval(repr) object: %s" % (i, why)
             if a["eq"] != b["eq"]:
@@ -701,6 +704,29 @@ def oracle(c, ctx):
                 if not ok:
                     return dict(clause="eval(repr(scalar)) != scalar", form=show_form(f), repr=repr(o), back=repr(back))
     return None
+
+
+def shrink(case, failure, ctx):
+    """keep only the documented forms the failure is about (first the pair it names, then single forms)"""
+    if case.get("op") != "forms":
+        return case, failure
+    named = [f for f in case["forms"] if f.get("p")]
+    texts = {v for v in failure.values() if isinstance(v, str)}
+    hit = [f for f in named if show_form(f) in texts]
+    tries = []
+    if hit:
+        tries.append(([named[0]] if named[0] not in hit else []) + hit)
+        tries.append(hit)
+    tries.append(named)
+    for forms in tries:
+        c2 = dict(case, forms=forms)
+        try:
+            f2 = oracle(c2, ctx)
+        except Exception:  # noqa
+            f2 = None
+        if f2:
+            return c2, f2
+    return case, failure
 
 
 def table_candidates(ctx):
